@@ -68,4 +68,32 @@ theorem encodeDoc_cons_wf (T : Tables) (ascii : Bool) (label : β → List Nat) 
       = quadBody T ascii label quads q ++ 0x0a :: encodeDoc T ascii label quads qs := by
   simp [encodeDoc, encodeQuad_wf T ascii label urlOk quads q h]
 
+theorem nodeW_head (T : Tables) (ascii : Bool) (label : β → List Nat) (urlOk : List Nat → Bool)
+    (t : Term β) (ht : WFNode urlOk t) :
+    ∃ c r, nodeW T ascii label t = c :: r ∧ (c = 0x3c ∨ c = 0x5f) := by
+  cases t with
+  | iri v => exact ⟨0x3c, _, rfl, Or.inl rfl⟩
+  | bnode b => exact ⟨0x5f, _, rfl, Or.inr rfl⟩
+  | lit l d t => exact ht.elim
+
+theorem writeLiteral_head (T : Tables) (ascii : Bool) (l d : List Nat) (t : Option (List Nat)) :
+    ∃ r, writeLiteral T ascii l d t = 0x22 :: r := by
+  unfold writeLiteral
+  simp only
+  split
+  · exact ⟨_, rfl⟩
+  · split
+    · cases t <;> exact ⟨_, rfl⟩
+    · exact ⟨_, rfl⟩
+
+theorem objW_head (T : Tables) (ascii : Bool) (label : β → List Nat) (urlOk : List Nat → Bool)
+    (t : Term β) (ht : WFObject urlOk t) :
+    ∃ c r, objW T ascii label t = c :: r ∧ (c = 0x22 ∨ c = 0x3c ∨ c = 0x5f) := by
+  cases t with
+  | iri v => exact ⟨0x3c, _, rfl, Or.inr (Or.inl rfl)⟩
+  | bnode b => exact ⟨0x5f, _, rfl, Or.inr (Or.inr rfl)⟩
+  | lit l d t =>
+    obtain ⟨r, hr⟩ := writeLiteral_head T ascii l d t
+    exact ⟨0x22, r, hr, Or.inl rfl⟩
+
 end RdfModel.Proofs.C01
